@@ -24,6 +24,7 @@ import (
 	"github.com/transparency-dev/merkle/rfc6962"
 	"github.com/transparency-dev/witness/internal/config"
 	"github.com/transparency-dev/witness/internal/witness"
+	"github.com/transparency-dev/witness/omniwitness"
 	"github.com/transparency-dev/witness/verifharness/internal/world"
 )
 
@@ -39,6 +40,9 @@ type keyTypeEvent struct {
 	GarbageRefused     bool   `json:"garbagerefused"`
 	OtherKeyRefused    bool   `json:"otherkeyrefused"`
 	OddLengthsSurvived bool   `json:"oddlengthssurvived"`
+	// ResignedRefresh: on a witness wired the way Main wires it (LogConfig.AsLogMap), the log's unchanged checkpoint signed AGAIN (for key kinds
+	// with randomised signatures: other signature bytes, equally valid) is accepted as a same-size refresh
+	ResignedRefresh bool `json:"resignedrefresh"`
 	Detail             string `json:"detail"`
 }
 
@@ -193,6 +197,38 @@ func keyTypesMain(args []string) error {
 		if !ev.GarbageRefused {
 			ev.Detail += fmt.Sprintf("corrupted signature accepted=%v random signature accepted=%v; ", accBad, accRnd)
 		}
+		// the production wiring of the verifier, one witness, the same text signed twice
+		ev.ResignedRefresh = true
+		func() {
+			defer func() {
+				if r := recover(); r != nil {
+					ev.ResignedRefresh = false
+					ev.Detail += fmt.Sprintf("re-signed refresh: panic %v; ", r)
+				}
+			}()
+			lcfg := omniwitness.LogConfig{Logs: []omniwitness.LogInfo{{Origin: origin, PublicKey: lk.vkey, URL: "http://127.0.0.1:1/", Feeder: omniwitness.None}}}
+			m, err := lcfg.AsLogMap()
+			if err != nil {
+				ev.Detail += "AsLogMap: " + err.Error() + "; "
+				ev.ResignedRefresh = false
+				return
+			}
+			st, _ := newStore("inmem", "")
+			w, err := witness.New(witness.Opts{Persistence: st.p, Signers: signers, KnownLogs: m})
+			if err != nil {
+				ev.ResignedRefresh = false
+				return
+			}
+			if _, err := w.Update(context.Background(), lc.ID, 0, note(lk.sign(text)), nil); err != nil {
+				return // (the first submission is judged above; nothing to refresh)
+			}
+			for r := 0; r < 3; r++ {
+				if _, err := w.Update(context.Background(), lc.ID, size, note(lk.sign(text)), nil); err != nil {
+					ev.ResignedRefresh = false
+					ev.Detail += fmt.Sprintf("re-signed refresh %d refused: %v; ", r, err)
+				}
+			}
+		}()
 		events = append(events, ev)
 	}
 	tw, err := newTraceWriter(*out)
